@@ -65,6 +65,7 @@ type Path struct {
 
 type PathResult struct {
 	Status     string // "ok", "infeasible", "unsupported", "budget", "deadlock", "panic", "error"
+	BudgetViolation bool // status "budget" already turned into a "terminates" violation candidate
 	Msg        string
 	Violations []Violation
 	Reached    map[string]bool
@@ -622,6 +623,9 @@ func Explore(prog *ssa.Program, fn *ssa.Function, opts ExploreOpts) (*Stats, err
 				}
 				switch res.Status {
 				case "unsupported", "budget", "error", "unknown", "deadlock":
+					if res.Status == "budget" && res.BudgetViolation {
+						break
+					}
 					if len(st.Problems) < 20 {
 						st.Problems = append(st.Problems, res.Status+": "+res.Msg)
 					}
@@ -725,6 +729,20 @@ func (it *Interp) RunPath(fn *ssa.Function, prefix []int64) (res *PathResult) {
 			p.undecided = append(p.undecided, "no-panic")
 		}
 	}
+	budgetViolation := false
+	if res.Status == "budget" {
+		// running out of the instruction budget is how non-termination shows:
+		// a candidate violation of the implicit "terminates" obligation, to be
+		// confirmed by the native replay (which must then time out as well)
+		if !p.hasModel {
+			p.fetchModel()
+		}
+		if p.hasModel {
+			p.recordViolation("terminates", res.Msg)
+			budgetViolation = true
+		}
+	}
+	res.BudgetViolation = budgetViolation
 	if res.Status == "ok" && len(p.inputs) > 0 && p.nontrivial {
 		if !p.hasModel {
 			p.fetchModel()
